@@ -3,7 +3,7 @@ From Coq Require Import NArith ZArith Arith List Bool Lia ZifyN ZifyBool ZifyNat
 From Coq.Strings Require Import Byte.
 From LOF Require Import Base.Bytes Base.Res Model.Wire Model.Build Model.Proto Model.Parse Spec.Walk
   Proofs.WireP Proofs.BuildP Proofs.NormP Proofs.WalkP Proofs.WalkAllP Proofs.WalkMsgP Proofs.SegP
-  Proofs.ParseRtAllP Proofs.ParseRtAll2P Proofs.ParseRtAll3P Proofs.ParseRtAll4P Proofs.ParseRtAll5P.
+  Proofs.ParseRtAllP Proofs.ParseRtAll2P Proofs.ParseRtAll3P Proofs.ParseRtAll4P Proofs.ParseRtAll5P Proofs.FramingP.
 Import ListNotations.
 Open Scope N_scope.
 Ltac Zify.zify_post_hook ::= Z.div_mod_to_equations.
@@ -259,8 +259,22 @@ Proof.
     rewrite parse_body_vendor by (try (subst L; lia); blens; nats; unfold Proto.blen; subst L; lia).
     replace (16 <? L) with true by (subst L; lia).
     unfold dec_vendor_data. cbn [N.eqb Pos.eqb]. seg.
+    (* the embedded message's own header gives its length *)
+    destruct (built_framing m' xin (pmsg_ok_wf _ Hin) ltac:(lia)) as [tail [HWf _]]. fold inner in HWf.
+    change (fst (marshal inner)) with W in HWf. unfold be8, be16, be32 in HWf.
+    assert (Hge : 8 <= glen inner).
+    { rewrite <- Hl. unfold W in HWf |- *. rewrite HWf. rewrite !app_length, !length_be_bytes. lia. }
+    replace (blen (be_bytes 4 id ++ zeros 2 ++ be_bytes 2 fl ++ W) <? 12) with false by (blens; nats; unfold Proto.blen; lia).
+    rewrite HWf. seg. rewrite <- HWf.
+    replace ((glen inner <? 8) || (blen (be_bytes 4 id ++ zeros 2 ++ be_bytes 2 fl ++ W) - 8 <? glen inner)) with false
+      by (blens; nats; unfold Proto.blen; lia).
+    rewrite (sl_skip (be_bytes 4 id) _ 8 (8 + glen inner) 4) by (first [apply blen_be|lia]).
+    rewrite (sl_skip (zeros 2) _ (8 - 4) (8 + glen inner - 4) 2) by (first [apply blen_zeros|lia]).
+    rewrite (sl_skip (be_bytes 2 fl) _ (8 - 4 - 2) (8 + glen inner - 4 - 2) 2) by (first [apply blen_be|lia]).
+    replace (8 - 4 - 2 - 2) with 0 by lia. replace (8 + glen inner - 4 - 2 - 2) with (glen inner) by lia.
+    rewrite (sl_all W (glen inner)) by (unfold Proto.blen; lia). cbn [bind].
     assert (Hpi : parse fuel W = Ok (pview xin m')) by (apply IH; [exact Hin|lia|lia]).
-    rewrite Hpi. cbn [bind]. rewrite Hgv.
+    rewrite Hpi. cbn [bind].
     destruct (length (be_bytes 4 id ++ zeros 2 ++ be_bytes 2 fl ++ W)) eqn:El.
     { apply (f_equal N.of_nat) in El. fold (blen (be_bytes 4 id ++ zeros 2 ++ be_bytes 2 fl ++ W)) in El. revert El. blens. nats. lia. }
     cbn [dec_props]. replace (blen (be_bytes 4 id ++ zeros 2 ++ be_bytes 2 fl ++ W) <=? 8 + glen inner) with true by (blens; nats; unfold Proto.blen; lia).
